@@ -17,9 +17,9 @@ RULE = ("generated programs biased towards in-place mutators (categorize, tag, s
         "chunk_events_by_key, merge_events_by_keys), a third of them made to raise midway (unknown function after a "
         "mutating call, unknown bucket, wrong type), run through aw_query.query against a store of each backend "
         "holding three populated buckets (a few events with negative durations, identical twins and a day-long event among them; minutes of data - for 3 of the 15 workers around the present moment of the run, some events stamped ahead of the clock -, or - 3 of the 15 workers - one bucket of ~2700 events nearly half of which start at the same instant as their neighbour, or - 6 of the 15 workers - most of a year of 6-24 h events, so that windows span weeks and months), with windows of any UTC offset (whole data range, partial, zero-width, "
-        "outside all data, sub-second edges), with an occasional direct write to a bucket between two queries; before/after each query every bucket is dumped (events + metadata) and "
+        "outside all data, sub-second edges, an edge centuries away from the data - years 2 to 9892 -), with an occasional direct write to a bucket between two queries; before/after each query every bucket is dumped (events + metadata) and "
         "compared; every query_bucket / query_bucket_eventcount result recorded at the registry is compared with a "
-        "direct windowed read / count of the same bucket over the query's own instants; non-trivial = the program "
+        "direct windowed read / count of the same bucket over the query's own instants (a read of an existing bucket that raises inside the query must raise directly too); non-trivial = the program "
         "calls a mutator on bucket data or fails; signature = (backend, set of built-ins called, outcome class, "
         "window class)")
 ASSUMPTIONS = ["programs never rebind STARTTIME/ENDTIME", "windows are aware datetimes with whole-minute offsets, start <= end"]
